@@ -40,7 +40,9 @@ def calculate_indices_for_controlled_phase(d, cutoff, modes):
     full_occ_number[modes[0]] = 1
     full_occ_number[modes[1]] = 1
 
-    size = get_cutoff_fock_space_dimension(d - 2, cutoff)
+    # NOTE: Both specified modes are occupied, so the auxiliary modes may contain at
+    # most `cutoff - 3` particles in order to stay in the cutoff Fock space.
+    size = get_cutoff_fock_space_dimension(d - 2, cutoff - 2)
 
     indices = np.empty(size, dtype=int_dtype)
 
